@@ -224,7 +224,10 @@ def _expand_partial_output(partial, sl_map, output_unroll_info):
     dtype = partial.yastn_dtype
     device = partial.device
 
-    expanded = Tensor(config=config, s=partial.struct.s, n=partial.struct.n, dtype=dtype, device=device)
+    expanded = Tensor(config=config, s=partial.struct.s, n=partial.struct.n, dtype=dtype, device=device,
+                      hfs=partial.hfs, mfs=partial.mfs)  # keep fusion history of the other output legs
+    # position of each unrolled (unfused) output leg among native legs, skipping over meta-fused output legs before it
+    native_ax = {out_ax: sum(mf[0] for mf in partial.mfs[:out_ax]) for out_ax in output_unroll_info}
 
     for i, block_ct in enumerate(partial.struct.t):
         # Slice block data in the native backend format (no numpy conversion)
@@ -237,10 +240,11 @@ def _expand_partial_output(partial, sl_map, output_unroll_info):
         out_slices = [slice(None)] * ndim
 
         for out_ax, (u, full_leg) in output_unroll_info.items():
-            ci = tuple(block_ct[out_ax * nsym : (out_ax + 1) * nsym])
+            nax = native_ax[out_ax]
+            ci = tuple(block_ct[nax * nsym : (nax + 1) * nsym])
             if ci in full_leg.tD:
-                full_shape[out_ax] = full_leg.tD[ci]
-                out_slices[out_ax] = sl_map[u].slices.get(ci, slice(None))
+                full_shape[nax] = full_leg.tD[ci]
+                out_slices[nax] = sl_map[u].slices.get(ci, slice(None))
 
         # Allocate a flat zero block in the native format, reshape, then write
         # partial data at the appropriate slice.  set_block will ravel it back.
